@@ -21,6 +21,7 @@ CLAIMS = {
  "C15": ("RequestId over all 2^32 values (pack/as_u32/unpack/eq/hash), PacketFieldEnum, FailureNotice, VerificationParams, the eight service-1 report kinds per (subservice, widths): source-data layout oracle, decode with suffix, equality, repack, refusal iff, arbitrary input.", "DESIGN.md 5 C15"),
  "C19": ("Sequence counters: in-memory provider by induction step over a symbolic state (all widths); file-backed provider over a ghost file system (open/readline/seek/write model, abstract decimal text): constructor, get_and_increment, new instance continues, FileNotFoundError iff, arbitrary text -> count or ValueError.", "DESIGN.md 5 C19"),
  "C07": ("File Data PDU: pack = oracle for every header configuration (metadata/no metadata, large/normal, CRC on/off, all widths), refusals iff, decode with arbitrary suffix exact to the octet incl. empty file data, decode of arbitrary octets (raises-only, CRC gate), setters (C11), maximum segment length helper.", "DESIGN.md 5 C07"),
+ "C17": ("USLP: primary / truncated header pack = 732.1-B-2 oracle for every VCF length 0..7, refusal iff for out-of-range IDs (both bounds), unpack of arbitrary octets, round trips with suffix; TFDF and transfer frame pack order, len() == len(pack()), frame-length update, unpack with matching managed parameters for fixed / variable / truncated frames, acceptance conditions for mismatches.", "DESIGN.md 5 C17"),
 }
 NOT_APPLICABLE = {}
 props = [json.loads(l)["id"] for l in open(os.path.join(V, "properties.jsonl"))]
